@@ -30,6 +30,9 @@ ASSIGNMENTS_QUICK = [
     "a(i) = b(i) * c(i)",
     "a(i) = b(i) * c(i) + d(i)",
     "a(i) = b(i) * (c(i) + d(i))",
+    "a(i) = (c(i) + d(i)) * b(i)",
+    "a(i) = (c(i) - d(i)) * b(i) * e(i)",
+    "a(i) = (b(i) + c(i)) * (d(i) + e(i))",
     "a(i) = b(i) - (c(i) - d(i))",
     "a(i) = 2 * b(i)",
     "a(i) = b(i) + 1",
